@@ -1,6 +1,8 @@
 package main
 
 import (
+	"strings"
+	"sort"
 	"fmt"
 	"go/token"
 	"go/types"
@@ -88,6 +90,7 @@ func (ex *Exec) step(st *State, fr *Frame, ins ssa.Instruction) {
 	case *ssa.TypeAssert:
 		ex.doTypeAssert(st, fr, x)
 	case *ssa.Call:
+		ex.callAsserts(st, fr, x)
 		res := ex.call(st, fr, x.Common(), x, x.Pos())
 		if res != nil {
 			fr.regs[x] = res
@@ -1044,4 +1047,64 @@ func (ex *Exec) stringToBytes(st *State, s string, to types.Type) Val {
 	m := sc(tree).T
 	ex.assume(st, fmt.Sprintf("(forall ((qi (_ BitVec 64))) (! (=> (bvult qi %s) (= (select (select %s %s) qi) (Str_at %s qi))) :pattern ((select (select %s %s) qi))))", n, m, r, s, m, r))
 	return sl
+}
+
+// calleeLabel names the callee of a call the way assert_before_call selects it.
+func calleeLabel(c *ssa.CallCommon) string {
+	if c.IsInvoke() {
+		return fmt.Sprintf("(%s).%s", types.TypeString(c.Value.Type(), nil), c.Method.Name())
+	}
+	if f := c.StaticCallee(); f != nil {
+		return fullName(f)
+	}
+	if b, ok := c.Value.(*ssa.Builtin); ok {
+		return b.Name()
+	}
+	return ""
+}
+
+// callAsserts: program-point assertions of the verified function's contract
+// placed right before a call (assert_before_call CALLEE#k expr).
+func (ex *Exec) callAsserts(st *State, fr *Frame, x *ssa.Call) {
+	top := ex.topFrame
+	if top == nil || top.ct == nil || fr != top || len(top.ct.CallAsserts) == 0 {
+		return
+	}
+	label := calleeLabel(x.Common())
+	for _, ca := range top.ct.CallAsserts {
+		if !strings.Contains(label, ca.Callee) {
+			continue
+		}
+		if ca.Ordinal > 0 {
+			// ordinal among the matching calls of the function, in source order
+			n := 0
+			var ps []token.Pos
+			for _, b := range top.fn.Blocks {
+				for _, in := range b.Instrs {
+					if c2, ok := in.(*ssa.Call); ok && strings.Contains(calleeLabel(c2.Common()), ca.Callee) {
+						ps = append(ps, c2.Pos())
+					}
+				}
+			}
+			sort.Slice(ps, func(i, j int) bool { return ps[i] < ps[j] })
+			for i, p := range ps {
+				if p == x.Pos() {
+					n = i + 1
+				}
+			}
+			if n != ca.Ordinal {
+				continue
+			}
+		}
+		for _, part := range ex.splitClauseE(top, st, nil, ca.Clause) {
+			term := part.term
+			if sk, ok := ex.skolemWithHyps(fr, st, part); ok {
+				term = sk
+			}
+			o := ex.oblige(st, fr, "assert-before-call("+ca.Callee+")", x.Pos(), part.text, term)
+			if o != nil && len(ca.Clause.Props) > 0 {
+				o.Props = ca.Clause.Props
+			}
+		}
+	}
 }
